@@ -152,6 +152,23 @@ SCRIPTS = {
                          ["NewSession", "A"], ["OpenId", 1, "42b7b4f2921788ea14dac5566e6f06d0"],
                          ["OpenId", 1, "42b7b4f2921788ea14dac5566e6f06d0"], ["Cached", 4],
                          ["Edit", 5, [], ["set", "b", typed(0)]], ["Cached", 4], ["IdPath", 4], ["Sp", 4]],
+    # a shallow copy taken after the document access shares the document object: remove() through one empties it
+    "shared-document-after-remove": [["NewSession", "A"], ["OpenSp", 0, typed({"a": 0})], ["Init", 0, False],
+                                     ["DocSet", 0, "p", typed(1)], ["Copy", 0], ["Remove", 0], ["Init", 0, False],
+                                     ["DocSet", 1, "q", typed("v")], ["Doc", 1], ["Remove", 1], ["Init", 1, False], ["Doc", 1]],
+    # in-place edits that change only the type of a value (top level and nested), and back
+    "type-only-edits": [["NewSession", "A"], ["OpenSp", 0, typed({"a": 1, "d": {"n": [0]}})], ["Init", 0, False],
+                        ["DocSet", 0, "p", typed(1)], ["Sp", 0], ["Copy", 0],
+                        ["Edit", 0, [], ["set", "a", typed(1.0)]], ["IdPath", 1], ["Cached", 1],
+                        ["Edit", 1, [["k", "d"], ["k", "n"]], ["seti", 0, typed(False)]], ["Sp", 0],
+                        ["Edit", 0, [], ["set", "a", typed(True)]], ["Edit", 0, [], ["set", "a", typed(1)]],
+                        ["Edit", 0, [["k", "d"], ["k", "n"]], ["seti", 0, typed(0)]], ["IdPath", 1], ["Doc", 1]],
+    # a clone of a job with symbolic links in its payload is independent of the source
+    "clone-with-links": [["NewSession", "A"], ["NewSession", "B"], ["OpenSp", 0, typed({"a": 0})], ["Init", 0, False],
+                         ["WriteFile", 0, ["data.txt"], "6869"], ["Link", 0, ["l_out"], "6f7574", "out", []],
+                         ["Link", 0, ["sub", "l_rel"], "6869", "rel", ["data.txt"]], ["Clone", 1, 0],
+                         ["ViaAppend", 1, ["l_out"], "21", "6f757421"], ["ViaAppend", 1, ["sub", "l_rel"], "21", "686921"],
+                         ["Edit", 0, [], ["set", "a", typed(1)]], ["Remove", 0]],
     "lifecycle-clean": [["NewSession", "A"], ["NewSession", "B"], ["OpenSp", 0, typed({"a": 0, "c": [1, 2]})],
                         ["Init", 0, False], ["DocSet", 0, "p", typed([1, {"z": None}])],
                         ["WriteFile", 0, ["sub", "x.bin"], "00ff10"], ["Sp", 0], ["Copy", 0],
@@ -163,15 +180,19 @@ SCRIPTS = {
 
 def gen_inputs(tier, rng):
     descs = [{"kind": "script", "name": k} for k in sorted(SCRIPTS)]
+    descs += [{"kind": "script", "name": k, "prov": wsops.provenance(rng, ("A", "B"))} for k in sorted(SCRIPTS)]
     if tier == "quick":
         for _ in range(150):
-            descs.append({"kind": "random", "pseed": rng.randint(0, 10 ** 9), "len": rng.randint(8, 25), "plant": rng.random() < 0.15})
+            descs.append({"kind": "random", "pseed": rng.randint(0, 10 ** 9), "len": rng.randint(8, 25), "plant": rng.random() < 0.15,
+                          "prov": wsops.provenance(rng, ("A", "B")) if rng.random() < 0.6 else None})
     else:
         for _ in range(1500):
-            descs.append({"kind": "random", "pseed": rng.randint(0, 10 ** 9), "len": rng.randint(10, 60), "plant": rng.random() < 0.15})
+            descs.append({"kind": "random", "pseed": rng.randint(0, 10 ** 9), "len": rng.randint(10, 60), "plant": rng.random() < 0.15,
+                          "prov": wsops.provenance(rng, ("A", "B")) if rng.random() < 0.6 else None})
         for n in range(1, 4):
             for word in itertools.product(ALPHA, repeat=n):
-                descs.append({"kind": "word", "word": list(word)})
+                descs.append({"kind": "word", "word": list(word),
+                              "prov": wsops.provenance(rng, ("A", "B")) if rng.random() < 0.5 else None})
     return descs
 
 
@@ -245,7 +266,7 @@ def random_ops(desc, W):
         return rng.choice(cands)
 
     def other_session(h):
-        root = os.path.relpath(W.handles[h]._project.path, W.root)
+        root = W.root_of(W.handles[h])
         cands = [i for i, r in enumerate(sess_root) if r != root]
         return rng.choice(cands) if cands else None
 
@@ -261,14 +282,14 @@ def random_ops(desc, W):
             # ---- composite patterns (classes of histories that single random ops rarely compose)
             pat = rng.choice(["multikey", "mutate", "copymove", "mutate-assigned", "pickle-shared", "pickle-shared",
                               "sibling-remove", "sibling-remove", "byid-rejected", "byid-rejected", "read-rekey-read",
-                              "byid-twins", "byid-twins"])
+                              "byid-twins", "byid-twins", "shared-doc", "shared-doc", "type-only", "with-job", "with-job", "link-clone"])
             if pat == "sibling-remove":
                 # two independent live handles of one job (second open_job(sp), open_job(id=...) in the same or a fresh
                 # session): the job is (re-)initialised through one, removed through the other, and then the first one
                 # - which still believes the directory exists - is used: reset / init / clear / remove / document
                 h = pick_handle(sp_safe)
                 j = W.handles[h]
-                root = os.path.relpath(j._project.path, W.root)
+                root = W.root_of(j)
                 si = [i for i, r_ in enumerate(sess_root) if r_ == root][0]
                 yield ["Init", h, False]
                 if W.last_out == ["unit"]:
@@ -296,6 +317,122 @@ def random_ops(desc, W):
                                           ["Edit", first, [], ["set", "b", typed(rng.choice(VALS["b"]))]]])
                         yield rng.choice([["Contains", si, first], ["Len", si], ["Ids", si], ["Reset", second],
                                           ["Init", second, False]])
+            elif pat == "link-clone":
+                # a job whose payload holds symbolic links (target outside every project / relative target inside the job;
+                # links are outside the FS model, the model sees the file read through the link) is cloned; then bytes are
+                # written through the CLONE's entries: the clone must be independent of the source
+                h = pick_handle(sp_safe)
+                s2 = other_session(h)
+                if s2 is not None and h not in orphaned:
+                    yield ["Init", h, False]
+                    if W.last_out == ["unit"]:
+                        data = bytes(rng.randrange(256) for _ in range(rng.randint(1, 5))).hex()
+                        yield ["WriteFile", h, ["data.txt"], data]
+                        out = bytes(rng.randrange(256) for _ in range(rng.randint(1, 5))).hex()
+                        yield ["Link", h, ["l_out"], out, "out", []]
+                        if rng.random() < 0.6:
+                            yield ["Link", h, ["sub", "l_rel"], data, "rel", ["data.txt"]]
+                        before = len(W.handles)
+                        yield ["Clone", s2, h]
+                        if len(W.handles) > before:
+                            new_group(before)
+                            yield ["ViaAppend", before, ["l_out"], "21", out + "21"]
+                            if rng.random() < 0.5:
+                                yield ["WriteFile", before, ["data.txt"], "7a"]
+                            k = rng.choice(KEYS)
+                            yield rng.choice([["Edit", h, [], ["set", k, typed(rng.choice(VALS[k]))]], ["Remove", h],
+                                              ["Move", before, [i for i, r_ in enumerate(sess_root) if r_ == W.root_of(W.handles[h])][0]]])
+            elif pat == "with-job":
+                # a `with job:` block (init + chdir into the job directory; left again by the harness): operations of the
+                # same and of other projects run while the working directory is a job directory
+                h = pick_handle(sp_safe)
+                if h not in orphaned and h not in dirty:
+                    yield ["Enter", h]
+                    if W.last_out == ["unit"]:
+                        for _w in range(rng.randint(1, 3)):
+                            r3 = rng.random()
+                            k = rng.choice(KEYS)
+                            if r3 < 0.35:
+                                yield ["Edit", h, [], ["set", k, typed(rng.choice(VALS[k]))]]
+                                if W.last_out == ["exn", "EDestinationExists"]:
+                                    g = groups.get(h)
+                                    dirty.update([h] + [i for i, gg in groups.items() if gg == g and g is not None])
+                            elif r3 < 0.5:
+                                yield ["DocSet", h, rng.choice(DOCKEYS), typed(rng.choice(DOCVALS))]
+                            elif r3 < 0.8:
+                                si = rng.randrange(len(sess_root))
+                                if rng.random() < 0.5:
+                                    yield ["NewSession", sess_root[si]]
+                                    sess_root.append(sess_root[si])
+                                    si = len(sess_root) - 1
+                                before = len(W.handles)
+                                yield ["OpenSp", si, typed(rand_sp(rng))]
+                                if len(W.handles) > before:
+                                    new_group(before)
+                                    yield ["Init", before, False]
+                            else:
+                                yield rng.choice([["Ids", rng.randrange(len(sess_root))], ["IdPath", h], ["Sp", h]])
+                        yield ["Exit", h]
+                        yield ["IdPath", h]
+            elif pat == "shared-doc":
+                # a shallow copy taken AFTER the document was accessed shares the document object (taken before, it gets
+                # its own): remove() through one, (re-)init, then a document write / read through the other
+                h = pick_handle(doc_safe)
+                if h not in orphaned:
+                    yield ["Init", h, False]
+                    if W.last_out == ["unit"]:
+                        early = rng.random() < 0.25
+                        c = None
+                        if not early:
+                            yield ["DocSet", h, rng.choice(DOCKEYS), typed(rng.choice(DOCVALS))]
+                        before = len(W.handles)
+                        yield ["Copy", h]
+                        if len(W.handles) > before:
+                            g = groups.get(h)
+                            if g is None:
+                                new_group(h)
+                                g = groups[h]
+                            groups[before] = g
+                            copies[g] = copies.get(g, 0) + 1
+                            shared.update(i for i, gg in groups.items() if gg == g)
+                            c = before
+                        if c is not None:
+                            if early:
+                                yield ["DocSet", h, rng.choice(DOCKEYS), typed(rng.choice(DOCVALS))]
+                                if rng.random() < 0.5:
+                                    yield ["Doc", c]
+                            remover, other = (h, c) if rng.random() < 0.5 else (c, h)
+                            yield ["Remove", remover]
+                            if rng.random() < 0.8:
+                                yield ["Init", rng.choice([remover, other]), False]
+                            yield rng.choice([["DocSet", other, rng.choice(DOCKEYS), typed(rng.choice(DOCVALS))],
+                                              ["DocSet", other, rng.choice(DOCKEYS), typed(rng.choice(DOCVALS))],
+                                              ["Doc", other], ["DocReset", other, typed({"q": 1})]])
+                            yield ["Doc", remover]
+            elif pat == "type-only":
+                # an in-place edit that changes only the TYPE of a value (1 -> 1.0 / True, nested 0 -> False): a new id;
+                # then the edit back (whole assignments of ==-equal values are C04's finding 3 and stay excluded)
+                h = pick_handle(sp_safe)
+                j = W.handles[h]
+                if h not in dirty:
+                    yield ["Init", h, False]
+                    sp = j._statepoint._to_base() if not j._statepoint_requires_init else dict(j._cached_statepoint or {})
+                    cands = []
+                    for k in sorted(sp):
+                        v = sp[k]
+                        if type(v) is int:
+                            cands.append(([], "set", k, v, [float(v)] + ([bool(v)] if v in (0, 1) else [])))
+                        elif isinstance(v, list) and v and type(v[0]) is int:
+                            cands.append(([["k", k]], "seti", 0, v[0], [float(v[0])] + ([bool(v[0])] if v[0] in (0, 1) else [])))
+                        elif isinstance(v, dict) and isinstance(v.get("n"), list) and v["n"] and type(v["n"][0]) is int:
+                            cands.append(([["k", k], ["k", "n"]], "seti", 0, v["n"][0], [False, 0.0]))
+                    if cands and W.last_out == ["unit"]:
+                        path, act, key, orig, variants = rng.choice(cands)
+                        yield ["Edit", h, path, [act, key, typed(rng.choice(variants))]]
+                        ok = W.last_out == ["unit"]
+                        yield rng.choice([["Sp", h], ["IdPath", h], ["Cached", h], ["Ids", 0]])
+                        if ok:
+                            yield ["Edit", h, path, [act, key, typed(orig)]]
             elif pat == "byid-twins":
                 # two INDEPENDENT by-id handles of one job on one Project object (both served from / reading through the
                 # same entry of its state point cache); a re-key through one; then id / cached_statepoint / statepoint of
@@ -303,7 +440,7 @@ def random_ops(desc, W):
                 # show a state point that does not hash to its id
                 h = pick_handle(sp_safe)
                 j = W.handles[h]
-                root = os.path.relpath(j._project.path, W.root)
+                root = W.root_of(j)
                 si = [i for i, r_ in enumerate(sess_root) if r_ == root][0]
                 yield ["Init", h, False]
                 if W.last_out == ["unit"]:
@@ -345,7 +482,7 @@ def random_ops(desc, W):
                 # job is rejected; then a further edit through the same handle
                 h = pick_handle(sp_safe)
                 j = W.handles[h]
-                root = os.path.relpath(j._project.path, W.root)
+                root = W.root_of(j)
                 si = [i for i, r_ in enumerate(sess_root) if r_ == root][0]
                 yield ["Init", h, False]
                 if W.last_out == ["unit"]:
@@ -422,7 +559,7 @@ def random_ops(desc, W):
                 partial = {**sp, **{k: u[k] for k in order[:cut]}}
                 if rng.random() < 0.8:
                     before = len(W.handles)
-                    yield ["OpenSp", [i for i, r_ in enumerate(sess_root) if r_ == os.path.relpath(j._project.path, W.root)][0],
+                    yield ["OpenSp", [i for i, r_ in enumerate(sess_root) if r_ == W.root_of(j)][0],
                            typed(partial)]
                     if len(W.handles) > before:
                         new_group(before)
@@ -462,7 +599,7 @@ def random_ops(desc, W):
                         if len(W.handles) > before:
                             new_group(before)
                             if len(W.sessions) > ns:
-                                sess_root.append(os.path.relpath(W.sessions[-1].path, W.root))
+                                sess_root.append(W.root_of(W.sessions[-1]))
                             yield rng.choice([["Edit", before] + edit, ["Init", before, False], ["Sp", before]])
                             yield ["IdPath", before]
                     elif mode == "pair":
@@ -473,7 +610,7 @@ def random_ops(desc, W):
                             groups[before + 1] = groups[before]
                             copies[groups[before]] = 2
                             if len(W.sessions) > ns:
-                                sess_root.append(os.path.relpath(W.sessions[-1].path, W.root))
+                                sess_root.append(W.root_of(W.sessions[-1]))
                             first, second = (before, before + 1) if rng.random() < 0.5 else (before + 1, before)
                             if rng.random() < 0.5:
                                 yield ["Init", first, False]
@@ -497,7 +634,7 @@ def random_ops(desc, W):
                 # opened by id in the same session and, after update_cache, in a fresh one (fix 64999d6)
                 h = pick_handle(sp_safe)
                 j = W.handles[h]
-                si = [i for i, r_ in enumerate(sess_root) if r_ == os.path.relpath(j._project.path, W.root)][0]
+                si = [i for i, r_ in enumerate(sess_root) if r_ == W.root_of(j)][0]
                 k = rng.choice(["c", "d"])
                 val = rng.choice([v for v in VALS[k] if isinstance(v, (list, dict))])
                 yield ["Init", h, False]
@@ -682,7 +819,7 @@ def random_ops(desc, W):
                 if h in orphaned:        # ... including the copy of a handle that was moved away
                     orphaned.add(before)
             if len(W.sessions) > ns:
-                sess_root.append(os.path.relpath(W.sessions[-1].path, W.root))
+                sess_root.append(W.root_of(W.sessions[-1]))
         elif r < 0.90:
             s = rng.randrange(len(sess_root))
             yield ["NewSession", sess_root[s]]
@@ -719,37 +856,44 @@ def run_case(desc):
     steps, log = [], []
     kinds = {desc["kind"]}
     changes, rekeys = 0, 0
+    cwd0 = os.getcwd()
+    W = None
     with scratch_dir("c03") as d:
-        W = wsops.World(d)
-        if desc["kind"] == "word":
-            gen = word_ops(desc["word"])
-        elif desc["kind"] == "script":
-            gen = SCRIPTS[desc["name"]]
-        else:
-            gen = random_ops(desc, W)
-        prev_ids = None
-        for op in gen:
-            out = W.run(op)
-            W.last_out = out
-            if out is None:          # harness-only op (the caller mutates the mapping it passed to open_job)
-                log.append([op, None, "same"])
+        try:
+            W = wsops.provenance_world(d, desc["prov"]) if desc.get("prov") else wsops.World(d)
+            if desc["kind"] == "word":
+                gen = word_ops(desc["word"])
+            elif desc["kind"] == "script":
+                gen = SCRIPTS[desc["name"]]
+            else:
+                gen = random_ops(desc, W)
+            prev_ids = None
+            for op in gen:
+                out = W.run(op)
+                W.last_out = out
+                if out is None:          # harness-only op (the caller mutates the mapping it passed to open_job)
+                    log.append([op, None, "same"])
+                    kinds.add(op[0])
+                    continue
+                snap = W.run(["Snap"])
+                steps.append("(mkStep3 %s %s %s)" % (wsops.coq_op(L, op), wsops.coq_oval(L, out), wsops.coq_oval(L, snap)))
+                log.append([op, out, "same" if snap[0] == "snapsame" else
+                            [[r, [(j["id"], j["sp"], j["doc"], [f[0] for f in j["files"]]) for j in js], ok]
+                             for r, js, ok in snap[2]]])
                 kinds.add(op[0])
-                continue
-            snap = W.run(["Snap"])
-            steps.append("(mkStep3 %s %s %s)" % (wsops.coq_op(L, op), wsops.coq_oval(L, out), wsops.coq_oval(L, snap)))
-            log.append([op, out, "same" if snap[0] == "snapsame" else
-                        [[r, [(j["id"], j["sp"], j["doc"], [f[0] for f in j["files"]]) for j in js], ok]
-                         for r, js, ok in snap[2]]])
-            kinds.add(op[0])
-            if out[0] == "exn":
-                kinds.add(out[1])
-            if snap[0] == "snap":
-                ids = [(r, [j["id"] for j in js]) for r, js, _ in snap[2]]
-                if ids != prev_ids:
-                    changes += 1
-                prev_ids = ids
-            if op[0] in ("Edit", "Assign", "UpdateSp", "Move", "Clone") and out == ["unit"] or out[0] == "str" and op[0] == "Clone":
-                rekeys += 1
+                if out[0] == "exn":
+                    kinds.add(out[1])
+                if snap[0] == "snap":
+                    ids = [(r, [j["id"] for j in js]) for r, js, _ in snap[2]]
+                    if ids != prev_ids:
+                        changes += 1
+                    prev_ids = ids
+                if op[0] in ("Edit", "Assign", "UpdateSp", "Move", "Clone") and out == ["unit"] or out[0] == "str" and op[0] == "Clone":
+                    rekeys += 1
+        finally:
+            if W is not None:
+                W.leave_all()
+            os.chdir(cwd0)      # before the scratch directory is removed
     body = "(mkCase3 %s %s)" % (L.ftab(), coq_list(steps, "step_C03"))
     return Case(L.wrap(body), desc, obs=log, nontrivial=(changes >= 2 and rekeys >= 1),
                 key=json.dumps([l[0] for l in log], sort_keys=True), kinds=sorted(kinds))
